@@ -92,9 +92,50 @@ Definition raw_ok (s : str) : Prop := Forall raw_char s /\ strip s = s.
 Definition raw_charb (c : N) : bool := negb (c =? 44) && negb (c =? 34) && negb (is_linebreak c).
 Definition raw_okb (s : str) : bool := forallb raw_charb s && str_eqb (strip s) s.
 
+(* ... or, more generally, a value whose commas all stand inside double-quoted literals (with backslash escapes) that
+   are closed again -- hand-written paths such as /doc/para[@id="intro, part 1"]: DiffParser._split does not split
+   there.  [bal s in_string escaped]: scanning s in the splitter's state ends outside a literal without meeting a
+   separator. *)
+Fixpoint bal (s : str) (in_string escaped : bool) : bool :=
+  match s with
+  | [] => negb in_string
+  | c :: r =>
+      if in_string then
+        if escaped then bal r true false
+        else if c =? 92 then bal r true true
+        else if c =? 34 then bal r false false
+        else bal r true false
+      else if c =? 44 then false
+      else bal r (c =? 34) escaped
+  end.
+Definition rawq_ok (s : str) : Prop := bal s false false = true /\ no_lb s /\ strip s = s.
+Definition rawq_okb (s : str) : bool :=
+  bal s false false && forallb (fun c => negb (is_linebreak c)) s && str_eqb (strip s) s.
+
+Lemma bal_plain s : Forall (fun c => c <> 44 /\ c <> 34) s -> bal s false false = true.
+Proof.
+  induction 1 as [|c s [H1 H2] Hs IH]; [reflexivity|]. cbn [bal].
+  apply N.eqb_neq in H1, H2. rewrite H1, H2. exact IH.
+Qed.
+
+Lemma raw_rawq s : raw_ok s -> rawq_ok s.
+Proof.
+  intros [Hc Hs]. split; [|split; [|exact Hs]].
+  - apply bal_plain. eapply Forall_impl; [|exact Hc]. intros c (H1 & H2 & _). auto.
+  - eapply Forall_impl; [|exact Hc]. intros c (_ & _ & H3). exact H3.
+Qed.
+
+Lemma rawq_okb_spec s : rawq_okb s = true <-> rawq_ok s.
+Proof.
+  unfold rawq_okb, rawq_ok, no_lb. rewrite !andb_true_iff, str_eqb_eq, forallb_forall, Forall_forall.
+  split.
+  - intros [[H1 H2] H3]. split; [exact H1|]. split; [|exact H3]. intros c Hc. apply negb_true_iff, H2, Hc.
+  - intros (H1 & H2 & H3). split; [split; [exact H1|]|exact H3]. intros c Hc. apply negb_true_iff, H2, Hc.
+Qed.
+
 Definition wf_val (e : enc) (v : pyval) : Prop :=
   match e, v with
-  | ERaw, PStr s => raw_ok s
+  | ERaw, PStr s => rawq_ok s
   | EJson, PStr s => Forall xml_char s        (* arbitrary text *)
   | EJson, PNone => True
   | EInt, PInt _ => True                      (* any integer *)
@@ -150,27 +191,70 @@ Proof.
   - destruct H1 as (H1 & H3 & H4). apply N.eqb_neq in H1, H3. rewrite H1, H3, H4. reflexivity.
 Qed.
 
-Lemma wf_valb_spec e v : wf_valb e v = true <-> wf_val e v.
+(* wf_valb / field_okb / wf_actionb: the PLAIN sufficient test (raw fields without any comma or quote), used where the
+   fields are names and paths of documents; wf_valqb / field_okqb / wf_actionqb decide wf_val / wf_action exactly *)
+Lemma wf_valb_spec e v : wf_valb e v = true -> wf_val e v.
 Proof.
-  destruct e, v; cbn [wf_valb wf_val]; try (split; [discriminate|contradiction]);
-    try (split; auto; fail).
-  - apply raw_okb_spec.
-  - rewrite forallb_forall, Forall_forall. split; intros H c Hc; apply xml_charb_spec, H, Hc.
+  destruct e, v; cbn [wf_valb wf_val]; try discriminate; auto.
+  - intros H. apply raw_rawq, raw_okb_spec, H.
+  - rewrite forallb_forall, Forall_forall. intros H c Hc. apply xml_charb_spec, H, Hc.
 Qed.
 
-Lemma field_okb_spec sig vals f : field_okb sig vals f = true <-> field_ok sig vals f.
+Lemma field_okb_spec sig vals f : field_okb sig vals f = true -> field_ok sig vals f.
 Proof.
-  unfold field_okb, field_ok. destruct (index_of (fst f) sig) as [i|]; [|split; [discriminate|contradiction]].
-  destruct (nth_error vals i) as [v|]; [apply wf_valb_spec|split; [discriminate|contradiction]].
+  unfold field_okb, field_ok. destruct (index_of (fst f) sig) as [i|]; [|discriminate].
+  destruct (nth_error vals i) as [v|]; [apply wf_valb_spec|discriminate].
 Qed.
 
-Lemma wf_actionb_spec T a : wf_actionb T a = true <-> wf_action T a.
+Lemma wf_actionb_spec T a : wf_actionb T a = true -> wf_action T a.
 Proof.
   unfold wf_actionb, wf_action.
+  destruct (find_fmt T (ga_ctor a)) as [fe|]; [|discriminate].
+  destruct (sig_fields T (ga_ctor a)) as [sig|]; [|discriminate].
+  rewrite andb_true_iff, Nat.eqb_eq, forallb_forall, Forall_forall.
+  intros [H1 H2]; (split; [exact H1|]); intros f Hf; apply field_okb_spec, H2, Hf.
+Qed.
+
+Definition wf_valqb (e : enc) (v : pyval) : bool :=
+  match e, v with
+  | ERaw, PStr s => rawq_okb s
+  | EJson, PStr s => forallb xml_charb s
+  | EJson, PNone => true
+  | EInt, PInt _ => true
+  | _, _ => false
+  end.
+Definition field_okqb (sig : list str) (vals : list pyval) (f : str * enc) : bool :=
+  match index_of (fst f) sig with
+  | Some i => match nth_error vals i with Some v => wf_valqb (snd f) v | None => false end
+  | None => false
+  end.
+Definition wf_actionqb (T : text_tables) (a : gaction) : bool :=
+  match find_fmt T (ga_ctor a), sig_fields T (ga_ctor a) with
+  | Some fe, Some sig =>
+      Nat.eqb (length (ga_fields a)) (length sig)
+      && forallb (field_okqb sig (ga_fields a)) (fe_fields fe)
+  | _, _ => false
+  end.
+
+Lemma wf_valqb_spec e v : wf_valqb e v = true <-> wf_val e v.
+Proof.
+  destruct e, v; cbn [wf_valqb wf_val]; try (split; [discriminate|contradiction]);
+    try (split; auto; fail).
+  - apply rawq_okb_spec.
+  - rewrite forallb_forall, Forall_forall. split; intros H c Hc; apply xml_charb_spec, H, Hc.
+Qed.
+Lemma field_okqb_spec sig vals f : field_okqb sig vals f = true <-> field_ok sig vals f.
+Proof.
+  unfold field_okqb, field_ok. destruct (index_of (fst f) sig) as [i|]; [|split; [discriminate|contradiction]].
+  destruct (nth_error vals i) as [v|]; [apply wf_valqb_spec|split; [discriminate|contradiction]].
+Qed.
+Lemma wf_actionqb_spec T a : wf_actionqb T a = true <-> wf_action T a.
+Proof.
+  unfold wf_actionqb, wf_action.
   destruct (find_fmt T (ga_ctor a)) as [fe|]; [|split; [discriminate|contradiction]].
   destruct (sig_fields T (ga_ctor a)) as [sig|]; [|split; [discriminate|contradiction]].
   rewrite andb_true_iff, Nat.eqb_eq, forallb_forall, Forall_forall.
-  split; intros [H1 H2]; (split; [exact H1|]); intros f Hf; apply field_okb_spec, H2, Hf.
+  split; intros [H1 H2]; (split; [exact H1|]); intros f Hf; apply field_okqb_spec, H2, Hf.
 Qed.
 
 Lemma wf_actionsb_spec T acts : forallb (wf_actionb T) acts = true -> Forall (wf_action T) acts.
@@ -267,6 +351,23 @@ Proof.
     rewrite (IH Hp). cbn [rev]. rewrite <- app_assoc. reflexivity.
 Qed.
 
+Lemma bal_split s : forall i e, (i = false -> e = false) -> bal s i e = true ->
+  forall r part parts, split_aux (s ++ r) part i e parts = split_aux r (rev s ++ part) false false parts.
+Proof.
+  induction s as [|c s IH]; intros i e Hie H r part parts.
+  - cbn [bal] in H. apply negb_true_iff in H. subst i. rewrite (Hie eq_refl). reflexivity.
+  - cbn [bal] in H. cbn [app split_aux rev]. rewrite <- app_assoc. cbn [app].
+    destruct i.
+    + destruct e; [apply IH; [discriminate|exact H]|].
+      destruct (c =? 92); [apply IH; [discriminate|exact H]|].
+      destruct (c =? 34); [apply IH; [reflexivity|exact H]|apply IH; [discriminate|exact H]].
+    + rewrite (Hie eq_refl) in *. destruct (c =? 44); [discriminate|].
+      apply IH; [|exact H]. intros _. reflexivity.
+Qed.
+
+Lemma bal_neutral s : bal s false false = true -> neutral s.
+Proof. intros H r part parts. apply (bal_split s false false (fun _ => eq_refl) H). Qed.
+
 Lemma split_instr s : forall esc e',
   instr s esc = Some e' ->
   forall r part parts,
@@ -328,10 +429,10 @@ Lemma encode_ok e v p :
 Proof.
   intros Hwf Henc. destruct e, v; cbn [wf_val] in Hwf; try contradiction;
     cbn [encode] in Henc; injection Henc as <-.
-  - (* ERaw *) destruct Hwf as [Hc Hs]. split; [|reflexivity]. split.
-    + apply neutral_plain. eapply Forall_impl; [|exact Hc]. intros c (H1 & H2 & H3). split; assumption.
+  - (* ERaw *) destruct Hwf as (Hb & Hl & Hs). split; [|reflexivity]. split.
+    + apply bal_neutral, Hb.
     + exact Hs.
-    + eapply Forall_impl; [|exact Hc]. intros c (H1 & H2 & H3). exact H3.
+    + exact Hl.
   - (* EJson, str *) split.
     + split; [apply neutral_dumps_str|apply strip_dumps_str|apply dumps_str_no_lb].
     + cbn [decode dumps]. rewrite loads_dumps_str by assumption. reflexivity.
